@@ -14,6 +14,7 @@ import (
 	"fmt"
 	"math"
 	"math/big"
+	"math/bits"
 	"math/rand"
 	"os"
 
@@ -79,6 +80,8 @@ func compPoly(name string) (coeffs [][]string, alpha int) {
 			coeffs = append(coeffs, minimax.CoeffsSignX2Cheby)
 		}
 		return coeffs, 4
+	case "even4": // two polynomials of degree 4 (a power of two): T_4 composed with a contraction; |x| <= 1
+		return [][]string{{"0.125", "0.5", "0.25", "0", "0.125"}, {"0", "0.5", "0", "0", "0.5"}}, 4
 	case "chainx4": // the degree-7 map composed 5 times, then the cubic twice: |x| >= 2^-4
 		for i := 0; i < 5; i++ {
 			coeffs = append(coeffs, minimax.CoeffsSignX4Cheby)
@@ -240,7 +243,7 @@ func (c *compCtx) runComposite(cf compCfg, rng *rand.Rand) ev {
 	ref := parseAll(coeffs)
 	depths := make([]int, len(polys))
 	for i := range polys {
-		depths[i] = polys[i].Depth()
+		depths[i] = bits.Len64(uint64(polys[i].Degree()))
 	}
 	e["depths"], e["alpha"] = depths, alpha
 
@@ -420,10 +423,10 @@ func (c *compCtx) runComposite(cf compCfg, rng *rand.Rand) ev {
 func CompositeMain(args []string) int {
 	if args[0] == "compsets" {
 		comps := map[string][]int{}
-		for _, n := range []string{"default", "chain", "chainx4"} {
+		for _, n := range []string{"default", "chain", "chainx4", "even4"} {
 			cs, _ := compPoly(n)
 			for _, q := range minimax.NewPolynomial(cs) {
-				comps[n] = append(comps[n], q.Depth())
+				comps[n] = append(comps[n], bits.Len64(uint64(q.Degree())))
 			}
 		}
 		b, _ := json.Marshal(map[string]interface{}{"sets": CompSets(), "comps": comps})
